@@ -91,7 +91,9 @@ Bad(e) ==
     [] e.k = "str"   -> {n \in {"StrText", "StrStorage"} : IF n = "StrText" THEN e.text # e.inp ELSE ~Storage(e)}
     [] e.k = "disp"  -> {n \in {"DispOK"} : ~DispOK(e)}
     [] e.k = "float" -> {n \in {"FloatOK", "FloatStorage"} : IF n = "FloatOK" THEN ~FloatOK(e) ELSE ~NumStorage(e)}
-    [] e.k = "ser"   -> {n \in {"SerOK"} : ~(e.calls = <<[m |-> "str", v |-> e.text]>> /\ e.stdcalls = e.calls)}
+    [] e.k = "ser"   -> {n \in {"SerOK"} :     \* one serialize_str with the text, whatever the format says about being human readable; the same as String
+                           ~(e.calls = <<[m |-> "human_readable", v |-> <<1>>], [m |-> "str", v |-> e.text],
+                                         [m |-> "human_readable", v |-> <<0>>], [m |-> "str", v |-> e.text]>> /\ e.stdcalls = e.calls)}
     [] e.k = "arb"   -> {n \in {"ArbOK"} : ~(e.same /\ (e.ok => e.text = e.ref))}
     [] e.k = "grow"  -> {n \in {"GrowOK"} : ~GrowOK(e)}
     [] e.k = "loop"  -> {n \in {"LoopOK"} : ~LoopOK(e)}
